@@ -452,6 +452,11 @@ func (b *Backend) Save(ctx context.Context, h backend.Handle, rd backend.RewindR
 			return b.done(op, ans, cerr)
 		}
 	}
+	if err := ctx.Err(); err != nil && ans == "ok" {
+		// a request whose context was cancelled while it was pending is aborted: no effect.  ("took effect but
+		// the caller saw an error" is the separate, explicit answer err-after.)
+		return b.done(op, "cancelled", err)
+	}
 	b.S.mu.Lock()
 	if _, exists := b.S.files[k]; exists && !b.AtomicReplace {
 		b.S.mu.Unlock()
@@ -479,6 +484,9 @@ func (b *Backend) Remove(ctx context.Context, h backend.Handle) error {
 		return b.done(op, ans, context.Canceled)
 	case "err":
 		return b.done(op, ans, ErrInjected)
+	}
+	if err := ctx.Err(); err != nil && ans == "ok" {
+		return b.done(op, "cancelled", err)
 	}
 	b.S.mu.Lock()
 	if _, ok := b.S.files[k]; !ok {
